@@ -77,7 +77,7 @@ Inductive exc :=
 | ENotFound          (* SQLObjectNotFound *)
 | EOperational       (* database is locked *)
 | EAssertion         (* assertActive / begin on a running transaction *)
-| EAttribute         (* delattr of a missing attribute in expire(); ConnWrapper on a Python without inspect.getargspec *)
+| EAttribute         (* ConnWrapper method access on a Python without inspect.getargspec *)
 | EBadHandle.        (* harness: the slot is empty *)
 
 Inductive stmt :=
@@ -386,25 +386,14 @@ Definition so_sync (sd : side) (o : nat) : M unit :=
   | Some r => select_init sd o r ;;; upd_inst sd o (fun i => i_with_expired i false)
   end.
 
-(* delattr of every column attribute, in order; a missing one raises AttributeError *)
-Fixpoint del_attrs (vals : list (option val)) : list (option val) * bool :=
-  match vals with
-  | [] => ([], true)
-  | None :: r => (None :: r, false)
-  | Some _ :: r => let '(r', ok) := del_attrs r in (None :: r', ok)
-  end.
-
-(* expire *)
+(* expire: drop whatever column attributes are there (a missing one is no error), flag, purge the cache entry *)
 Definition so_expire (sd : side) (o : nat) : M unit :=
   i <- gets (fun s => get_inst s sd o) ;;
   if i_expired i then ret tt
   else
-    let '(vals', ok) := del_attrs (i_vals i) in
-    upd_inst sd o (fun i => i_with_vals i vals') ;;;
-    if ok then
-      upd_inst sd o (fun i => i_with_expired i true) ;;;
-      cache_expire sd (i_id i)
-    else raise EAttribute.
+    upd_inst sd o (fun i => i_with_vals i (map (fun _ => None) (i_vals i))) ;;;
+    upd_inst sd o (fun i => i_with_expired i true) ;;;
+    cache_expire sd (i_id i).
 
 (* destroySelf: Transaction._SO_delete notes the id before it sends the DELETE *)
 Definition so_destroy (sd : side) (o : nat) : M unit :=
@@ -623,8 +612,6 @@ Definition par_fresh (s : st) : bool :=
 
 Definition no_vals (i : inst) : bool :=
   forallb (fun v => match v with None => true | Some _ => false end) (i_vals i).
-Definition all_vals (i : inst) : bool :=
-  forallb (fun v => match v with None => false | Some _ => true end) (i_vals i).
 
 (* the row of this id differs between the transaction's view and the committed table *)
 Definition row_eqb (a b : row) : bool :=
@@ -641,16 +628,12 @@ Definition changed (s : st) (id : Z) : bool :=
   | _, _ => true
   end.
 
-(* expire() on this instance does what its name says: not flagged expired while attributes are cached,
-   and no attribute missing while the flag is clear *)
-Definition expirable (i : inst) : bool :=
-  if i_expired i then no_vals i else all_vals i.
-
 (* GUARD of the commit theorem: the bookkeeping of Transaction.commit reaches every parent-side
    instance that would otherwise be left stale.  For every reachable undestroyed parent-side instance
    whose row the transaction changed and which caches something: the id is among those commit walks over
-   (ids in the transaction's cache at this moment, or deleted in it), the parent's cache still hands out
-   this very instance, and expire() works on it; and expire() raises on none of the instances commit visits. *)
+   (ids in the transaction's cache at this moment, or deleted in it) and the parent's cache still hands out
+   this very instance.  (The instance is also required not to be flagged expired while it caches something:
+   a state no operation produces since assignments on expired instances stopped caching.) *)
 Definition commit_reaches (s : st) : bool :=
   let ids := all_ids s Txn ++ deleted s in
   forallb (fun o =>
@@ -659,25 +642,17 @@ Definition commit_reaches (s : st) : bool :=
              (mem_z (i_id i) ids &&
               match try_get s Par (i_id i) with Some o' => Nat.eqb o' o | None => false end &&
               negb (i_expired i)))
-          (seq_nat (length (heap (par s)))) &&
-  forallb (fun id => match try_get s Par id with
-                     | Some o => expirable (get_inst s Par o)
-                     | None => true
-                     end) ids.
+          (seq_nat (length (heap (par s)))).
 
-(* GUARD of the rollback theorem: every reachable undestroyed transaction-side instance is still handed out
-   by the transaction's cache and expire() works on it *)
+(* GUARD of the rollback theorem: every reachable undestroyed transaction-side instance that caches something
+   is still handed out by the transaction's cache (and is not flagged expired, see above) *)
 Definition rollback_reaches (s : st) : bool :=
   forallb (fun o =>
              let i := get_inst s Txn o in
              negb (reachable_obj s Txn o) || i_obsolete i || no_vals i ||
              (match try_get s Txn (i_id i) with Some o' => Nat.eqb o' o | None => false end &&
-              negb (i_expired i) && all_vals i))
-          (seq_nat (length (heap (txn s)))) &&
-  forallb (fun id => match try_get s Txn id with
-                     | Some o => expirable (get_inst s Txn o)
-                     | None => true
-                     end) (all_ids s Txn).
+              negb (i_expired i)))
+          (seq_nat (length (heap (txn s)))).
 
 (* GUARD of parent-side writes in the history theorem: the other reachable undestroyed parent-side instances
    of the row of instance o cache nothing (there is one live copy of the row on the parent side -- the
